@@ -349,14 +349,16 @@ Proof.
 Qed.
 
 Lemma check_from_sound : forall O before T k e,
-  Forall (fun t => sane t = true) before -> Forall (fun t => sane t = true) T ->
+  Forall (fun t => sane t = true) before -> Forall (fun t => sane t = true) O ->
+  Forall (fun t => sane t = true) T ->
   check_from before O T = true ->
   (forall d, In d before -> matches d k = false) ->
   lookup O k = Some e -> routed_like e T k.
 Proof.
-  induction O as [| e0 r IH]; intros before T k e Hsb HsT Hchk Hnm Hl; unfold lookup in Hl; simpl in Hl.
+  induction O as [| e0 r IH]; intros before T k e Hsb HsO HsT Hchk Hnm Hl; unfold lookup in Hl; simpl in Hl.
   - discriminate.
-  - simpl in Hchk. apply andb_true_iff in Hchk. destruct Hchk as [Hhead Hrest].
+  - inversion HsO as [| ? ? Hs0 Hsr]; subst.
+    simpl in Hchk. apply andb_true_iff in Hchk. destruct Hchk as [Hhead Hrest].
     destruct (matches e0 k) eqn:Hm.
     + injection Hl as <-.
       assert (Hwf : wf_km (km_of e0) = true) by (apply (matches_wf _ k); exact Hm).
@@ -368,10 +370,22 @@ Proof.
       * rewrite forallb_forall in Hhead.
         apply (check_cube_sound e0 T c' k HsT (Hhead c' Hc') Hwc' Hk').
     + (* e0 does not match: it joins the entries above *)
-      assert (Hs0 : sane e0 = true \/ True) by (right; exact I).
       apply (IH (e0 :: before) T k e); try assumption.
-      * constructor; [| exact Hsb].
-        (* sanity of e0 is part of the global check; it is threaded by the caller *)
-        admit.
+      * constructor; assumption.
       * intros d [<- | Hd]; [exact Hm | apply Hnm; exact Hd].
-Abort.
+Qed.
+
+(* V: every `true` of the validator is a proof of route_eq for that pair of tables.  (The statement
+   proved is for every integer key, which includes the 32-bit ones route_eq speaks of.) *)
+Theorem check_route_eq_sound : forall O T, check_route_eq O T = true -> route_eq O T.
+Proof.
+  intros O T H k e _ Hl. unfold check_route_eq in H.
+  apply andb_true_iff in H. destruct H as [H Hchk]. apply andb_true_iff in H. destruct H as [HsO HsT].
+  rewrite forallb_forall in HsO, HsT.
+  change (routed_like e T k).
+  apply (check_from_sound O [] T k e); try assumption.
+  - constructor.
+  - apply Forall_forall. exact HsO.
+  - apply Forall_forall. exact HsT.
+  - intros d [].
+Qed.
